@@ -111,3 +111,14 @@ def val_cmp(I, op, a, b):
         if v is None or isinstance(v, Undefined) or isinstance(v, (Obj, Opaque, SDict, SList, str, bytes, SBytes, tuple)):
             return FALSE
     return I._lb(I.cmp_num(op, a, b))
+
+
+def as_num(I, v):
+    """numeric term of a possibly guarded value (undefined / non-numeric alternatives are dropped)"""
+    if not isinstance(v, Guarded):
+        return I.num(v)
+    alts = [(c, x) for c, x in v.alts if not isinstance(x, Undefined) and x is not None and not isinstance(x, (Obj, Opaque, SDict, SList, str, bytes, SBytes, tuple))]
+    res = as_num(I, alts[-1][1])
+    for c, x in reversed(alts[:-1]):
+        res = z3.If(c, as_num(I, x), res)
+    return res
